@@ -169,7 +169,7 @@ func specProbeID(u *udpDriver, ttl uint8) uint16 {
 //@ ensures[C06.wire.id4]  ret0 == nil && u.config.Target.To4() != nil ==> ghost(ser.ipid) == 41821 + int(ttl) && ghost(ser.version) == 4
 // IPv6 has no IP-ID: the per-probe identifier on the wire is the UDP length, 8 + the payload handed to the serializer,
 // and it is the identifier the probe was registered under
-//@ ensures[C01+C06.wire.id6]  ret0 == nil && u.config.Target.To4() == nil ==> 8 + ghost(ser.paylen) == int(specProbeID(u, ttl)) && ghost(ser.version) == 6
+//@ ensures[C01+C02+C06.wire.id6]  ret0 == nil && u.config.Target.To4() == nil ==> 8 + ghost(ser.paylen) == int(specProbeID(u, ttl)) && ghost(ser.version) == 6
 //@ ensures[C06.wire.port] ret0 == nil ==> ghost(ser.sport) == int(u.config.srcPort) && ghost(ser.dport) == int(u.config.TargetPort)
 //@ ensures[C06.wire.opts] ret0 == nil ==> ghost(ser.fix) && ghost(ser.csum) && ghost(ser.pseudo)
 //@ ensures[C10.send.wrap] ret0 != nil ==> noRepoErr(ret0)
